@@ -348,6 +348,17 @@ impl<'a> RustGenerator<'a> {
                 "mutable" => self
                     .writer
                     .push_str("#[dust_dds(extensibility = \"mutable\")]\n"),
+                // The long spelling @extensibility(FINAL | APPENDABLE | MUTABLE)
+                "extensibility" => {
+                    let kind = inner_pairs
+                        .clone()
+                        .find(|p| p.as_rule() == Rule::annotation_appl_params)
+                        .map(|p| p.as_str().trim().to_ascii_lowercase());
+                    if let Some(kind @ ("final" | "appendable" | "mutable")) = kind.as_deref() {
+                        self.writer
+                            .push_str(&format!("#[dust_dds(extensibility = \"{kind}\")]\n"));
+                    }
+                }
                 _ => (),
             }
         }
